@@ -3,7 +3,7 @@
 # A scratch laboratory for testing the checks against changed code without touching /repo:
 # /tmp/mutlab/repo is a copy of /repo's working tree (with .git), /tmp/mutlab/verif a copy of /verif whose
 # harness depends on that copy. Remove it (destroy) when done.
-L=/tmp/mutlab
+L=${LAB:-/tmp/mutlab}
 case "$1" in
   setup)
     rm -rf $L; mkdir -p $L
